@@ -75,9 +75,16 @@ Fixpoint descend (comps : list str) (k : list tree -> list tree) (t : list tree)
   | c :: rest => or_same t (update_first (is_parent_named c) (map_children (descend rest k)) t)
   end.
 
+(** The final match compares modulo a leading "r#": [module_path!()] spells a
+    raw-identifier module without the prefix when the name is not a keyword in the
+    crate's edition ([mod r#try] in edition 2015 is [krate::try]) whereas the
+    group's [raw_name] is the identifier as written. *)
+Definition is_parent_named_raw (m : str) (t : tree) : bool :=
+  match t with Parent r _ _ => str_eqb (strip_raw r) (strip_raw m) | Leaf _ _ => false end.
+
 Definition insert_group (t : list tree) (g : group_entry) : list tree :=
   descend (module_components (g_meta g))
-          (fun t => or_same t (update_first (is_parent_named (m_raw (g_meta g))) (set_group g) t)) t.
+          (fun t => or_same t (update_first (is_parent_named_raw (m_raw (g_meta g))) (set_group g) t)) t.
 
 Definition build_tree (benches : list bench_entry) (groups : list group_entry) : list tree :=
   fold_left insert_group groups (from_benches (all_entries benches groups)).
